@@ -42,3 +42,65 @@ Example c04_example_tables :
          [([VId 0], VId 1); ([VId 1], VId 2); ([VId 2], VId 3)];
          [([], VId 8)]]).
 Proof. vm_compute. reflexivity. Qed.
+
+(* ================================================================== *)
+(** * The invariant along every run of the rule interpreter ([Egg/Rules.v])
+
+    [visited sg n ks s]: [s] is a state the program [ks] passes through — after one of its
+    commands (up to the first error), or the state in which it ends, returned together with the
+    error if there is one. *)
+Require Import Verif.Egg.Rules Verif.Egg.RulesProofs.
+
+(** the invariant, spelled out (this pins [c04_inv]) *)
+Theorem c04_inv_unfold : forall n s, c04_inv n s <->
+  (Inv (uf s) /\ length (wit s) = length (uf s) /\ length (tabs s) = n /\
+   (forall f r i, In r (get_tab (tabs s) f) -> (In (VId i) (rargs r) \/ rret r = VId i) ->
+      i < length (uf s) /\ par (uf s) i = i /\ rep (uf s) i = i) /\
+   (forall f, NoDup (map rargs (get_tab (tabs s) f))) /\
+   (forall f r1 r2, In r1 (get_tab (tabs s) f) -> In r2 (get_tab (tabs s) f) ->
+      map (canon (uf s)) (rargs r1) = map (canon (uf s)) (rargs r2) -> r1 = r2)).
+Proof. intros n s. reflexivity. Qed.
+Print Assumptions c04_inv_unfold.
+
+(** [visited], spelled out *)
+Theorem c04_visited_unfold : forall sg n ks s, visited sg n ks s <->
+  (In s (map fst (ptrace sg (init n, []) ks)) \/ s = fst (fst (pfinal sg (init n, []) ks))).
+Proof. intros. reflexivity. Qed.
+Print Assumptions c04_visited_unfold.
+
+(** constructor fragment: the state after EVERY command of every such program (and at the error
+    point) is canonical, functional and has no congruent rows *)
+Theorem c04_rules_inv_reachable : forall n sg ks s,
+  prog_ctor_okb n sg ks = true -> visited sg n ks s -> c04_inv n s.
+Proof. exact RulesProofs.rules_inv_visited. Qed.
+Print Assumptions c04_rules_inv_reachable.
+
+(** EVERY program over EVERY signature — constructors, lattice functions (min/max/or/and),
+    relations, :no-merge, sets, subsumption, deletion, panics, ungrounded actions, merge conflicts:
+    every visited state, error or not, satisfies the invariant. No hypothesis. *)
+Theorem c04_x_inv_reachable : forall n sg ks s, visited sg n ks s -> c04_inv n s.
+Proof. exact RulesProofs.x_inv_visited. Qed.
+Print Assumptions c04_x_inv_reachable.
+
+(** ... and the model never reports its own error code 4 (fuel exhausted / panic): the rebuild
+    loop terminates within [rebuild_fuel] on every signature, the union-find never panics *)
+Theorem c04_x_no_model_error : forall n sg ks, snd (pfinal sg (init n, []) ks) <> Some 4.
+Proof. exact RulesProofs.x_no_model_error. Qed.
+Print Assumptions c04_x_no_model_error.
+
+(** non-vacuity: a mixed-signature program (constructor, min-lattice function, relation; sets, a
+    rule, a union merging two function rows through min, subsume, delete, panic) *)
+Example c04_x_example :
+  length (ptrace REx.sg2 (init 4, []) REx.ks2) = 10 /\
+  snd (pfinal REx.sg2 (init 4, []) REx.ks2) = Some 1 /\
+  REx.dump (fst (pfinal REx.sg2 (init 4, []) REx.ks2))
+  = ([0; 0],
+     [[([], VId 0, false)]; [];
+      [([VId 0; VInt 1], VInt 0, true); ([VId 0; VInt 3], VInt 0, false); ([VId 0; VInt 9], VInt 0, false)];
+      [([], VId 0, false)]]) /\
+  nth 7 (map REx.dump (ptrace REx.sg2 (init 4, []) REx.ks2)) ([], [])
+  = ([0; 0],
+     [[([], VId 0, false)]; [([VId 0], VInt 3, false)];
+      [([VId 0; VInt 1], VInt 0, false); ([VId 0; VInt 3], VInt 0, false); ([VId 0; VInt 9], VInt 0, false)];
+      [([], VId 0, false)]]).
+Proof. exact RulesProofs.rex_mixed. Qed.
